@@ -14,8 +14,8 @@ RULE = ('domain in {UnitSquare, PiSquare, LShape} x (a) bounded exhaustive BFS o
         '(depth 4 quick / 5 thorough, de-duplicated by leaf set), (b) Hypothesis-generated refinement sequences (<= 40 '
         'steps, level <= 7), (c) boundary targeting on a fresh mesh: every dyadic segment [k/2^l, (k+1)/2^l] of every unit '
         'piece of every side for l <= 6 (all k) and 64 sampled + the two extreme k for 7 <= l <= 10, both orientations, end '
-        'points as tuples, lists, (2,1) arrays and as produced by the pipeline (gamma_space of a bisected boundary '
-        'element). Oracle: integer-grid model of the leaves (squares of their level inside one root, total area, no leaf '
+        'points as tuples, lists, (2,1) arrays (integral coordinates also written as integers) and as produced by the '
+        'pipeline (gamma_space of a bisected boundary element). Oracle: integer-grid model of the leaves (squares of their level inside one root, total area, no leaf '
         'inside another, edge-adjacent levels differ by <= 1, unique vertex coordinates, the refined cell replaced by its '
         'four children); targeting returns a leaf, exactly one leaf has both end points as vertices, both are found by '
         'vertex_from_coords, the edge has the requested length, and the predicates still hold; (d) the same targeting on '
@@ -272,6 +272,10 @@ def target_body(case, rec):
         v0, v1 = p, q
     else:
         pt, qt = segment_points(dom, piece, l, k)
+        if case.get('ints'):
+            # integral coordinates written as integers, the way a caller writes a corner: (1, 1), [0, 1], array([[1], [0]])
+            as_int = lambda v: int(v) if float(v).is_integer() else v
+            pt, qt = tuple(as_int(v) for v in pt), tuple(as_int(v) for v in qt)
         if form == 'tuple':
             v0, v1 = pt, qt
         elif form == 'list':
@@ -406,6 +410,10 @@ def target_jobs(quick):
                         if quick and (n % 3):
                             continue
                         jobs.append({'kind': 'target', 'dom': dom, 'piece': piece, 'l': l, 'k': k, 'flip': flip, 'form': form})
+                        if l <= 3 and k in (0, (1 << l) - 1) and dom != 'PiSquare':
+                            for f2 in ('tuple', 'list', 'array'):
+                                jobs.append({'kind': 'target', 'dom': dom, 'piece': piece, 'l': l, 'k': k, 'flip': flip,
+                                             'form': f2, 'ints': True})
     return jobs
 
 
@@ -422,7 +430,7 @@ def run(ctx):
         target_body(case, ctx.rec)
     pre = st.fixed_dictionaries({'kind': st.just('target'), 'dom': st.sampled_from(list(DOMAINS)), 'piece': st.integers(0, 7),
                                  'l': st.integers(1, 8), 'k': st.integers(0, 10**6), 'flip': st.booleans(),
-                                 'form': st.sampled_from(['tuple', 'list', 'array', 'pipeline']),
+                                 'form': st.sampled_from(['tuple', 'list', 'array', 'pipeline']), 'ints': st.booleans(),
                                  'pre': st.one_of(st.just([]), st.lists(st.integers(0, 10**6), min_size=1, max_size=12)),
                                  'first': st.one_of(st.none(), st.tuples(st.integers(0, 7), st.integers(0, 6), st.integers(0, 10**6)).map(list))}).map(
         lambda c: dict(c, piece=c['piece'] % len(PIECES[c['dom']]), k=c['k'] % (1 << c['l'])))
